@@ -5,7 +5,7 @@ PR=facts.Program('/verif/.cache/dev')
 ck=engine.Check('CXX','quick',PR)
 ck.repo='/repo'
 m=importlib.import_module('rules.'+sys.argv[1])
-r=m.analyse(ck)
+fn=getattr(m, sys.argv[2] if len(sys.argv)>2 and not sys.argv[2].startswith("-") else "analyse"); r=fn(ck)
 ob=r[0] if isinstance(r,tuple) else r
 for props,ok,rule,key,what,loc,detail in ob.items:
     if ok and '-q' in sys.argv: continue
